@@ -20,7 +20,7 @@ BAD_KINDS = ["past_abs", "neg_rel", "nan_abs", "nan_rel", "str_abs",
 
 
 def gen_program(rng, clock=None, n_events=None, p_cancel=0.12, p_bad=0.0,
-                p_abs=0.2, fail_plan=None, max_children=3, rep=None):
+                p_abs=0.2, fail_plan=None, max_children=3, rep=None, p_pre=0.15):
     """Generate a model program.  Returns a dict (JSON-able)."""
     if clock is None:
         clock = rng.choice(["float", "float", "int", "duration"])
@@ -93,6 +93,14 @@ def gen_program(rng, clock=None, n_events=None, p_cancel=0.12, p_bad=0.0,
             wl = roots if who is None else events[str(who)]
             pos = rng.randint(0, len(wl))
             wl.insert(pos, ["bad", rng.choice(BAD_KINDS)])
+    if rng.random() < p_pre:
+        # some initial events are SimEvent objects built with the model (before
+        # initialize) and handed to schedule_event(event) in construct_model;
+        # they come first, in creation order, so creation and scheduling order agree
+        pre = [a for a in roots if a[0] == "abs"][:rng.randint(1, 3)]
+        if pre:
+            rest = [a for a in roots if not any(a is b for b in pre)]
+            roots = [["pre", a[1], a[2], a[3]] for a in pre] + rest
     prog = {"clock": clock, "rep": rep, "roots": roots, "events": events}
     if unit:
         prog["unit"] = unit
@@ -142,6 +150,6 @@ def child_of(action):
     k = action[0]
     if k == "now":
         return action[1]
-    if k in ("rel", "abs"):
+    if k in ("rel", "abs", "pre"):
         return action[2]
     return None
